@@ -522,9 +522,10 @@ func (s *Service) issue(ctx context.Context, peer boson.Address, recipient, bene
 		return ErrInsufficientFunds
 	}
 
-	cumulativePayout := traffic.retrieveChequeTraffic
-	// increase cumulativePayout by amount
-	cumulativePayout = cumulativePayout.Add(cumulativePayout, balance)
+	// increase cumulativePayout by amount; use a fresh integer: the stored
+	// total may be shared with the on-chain totals after a refresh and must not
+	// change unless the cheque is delivered
+	cumulativePayout := new(big.Int).Add(traffic.retrieveChequeTraffic, balance)
 	// create and sign the new cheque
 	c := chequePkg.Cheque{
 		Recipient:        recipient,
